@@ -51,7 +51,7 @@ def _mc(ctx):
 
 
 def _tv(ctx):
-    waves, per = (4, 5) if ctx.quick else (24, 8)
+    waves, per = (4, 5) if ctx.quick else (36, 8)
     tp = ctx.path("c19_trace.ndjson")
     ev = []
     for attempt in range(2):
